@@ -8,6 +8,14 @@ mod c03;
 mod c04;
 mod c05;
 mod c06;
+mod c07;
+mod c08;
+mod c09;
+mod c10;
+mod c11;
+mod c12;
+mod c13;
+mod c14;
 
 use common::*;
 use serde_json::Value;
@@ -23,6 +31,14 @@ fn table() -> Vec<(&'static str, &'static str, Explore, Replay)> {
         ("C04", "exploration", c04::explore, c04::replay),
         ("C05", "exploration", c05::explore, c05::replay),
         ("C06", "exploration", c06::explore, c06::replay),
+        ("C07", "fault_enumeration", c07::explore, c07::replay),
+        ("C08", "exploration", c08::explore, c08::replay),
+        ("C09", "exploration", c09::explore, c09::replay),
+        ("C10", "exploration", c10::explore, c10::replay),
+        ("C11", "exploration", c11::explore, c11::replay),
+        ("C12", "exploration", c12::explore, c12::replay),
+        ("C13", "exploration", c13::explore, c13::replay),
+        ("C14", "exploration", c14::explore, c14::replay),
     ]
 }
 
